@@ -66,6 +66,15 @@ def setup():
     except ToolError as e:
         print(e)
         return 2
+    # the repository's test binaries with the recorder compiled in (used by the protocol stages)
+    env = cargo_env()
+    env.update({"CARGO_TARGET_DIR": os.path.join(WORK, "target-proto"),
+                "RUSTFLAGS": "--cfg crux_verif --check-cfg cfg(crux_verif)"})
+    rc, out = sh(["cargo", "test", "--workspace", "--offline", "--lib", "--bins", "--tests", "--no-run"], env=env,
+                 cwd=REPO, timeout=3000)
+    if rc != 0:
+        print("instrumented test build failed:\n" + out[-3000:])
+        return 2
     # every spec must parse
     for f in sorted(os.listdir(SPEC)):
         if f.endswith(".tla"):
@@ -370,9 +379,39 @@ class HarnessCrash(ToolError):
         self.journal = journal
 
 
-def run_harness(cases_path, trace_path, mode="run"):
+def record_suite(run):
+    """the repository's own test suite, built with the recorder (cfg crux_verif) and run single-threaded:
+    returns the recorded executor events grouped by Command instance"""
+    d = os.path.join(WORK, "proto")
+    os.makedirs(d, exist_ok=True)
+    raw, cases = os.path.join(d, f"{run.prop}.raw"), os.path.join(d, f"{run.prop}.cases")
+    if os.path.exists(raw):
+        os.remove(raw)
+    env = cargo_env()
+    env.update({"CRUX_VERIF_TRACE": raw, "CARGO_TARGET_DIR": os.path.join(WORK, "target-proto"),
+                "RUSTFLAGS": "--cfg crux_verif --check-cfg cfg(crux_verif)"})
+    t0 = time.time()
+    rc, out = sh(["cargo", "test", "--workspace", "--offline", "--lib", "--bins", "--tests", "--no-fail-fast", "--",
+                  "--test-threads=1"], env=env, cwd=REPO, timeout=3000)
+    if not os.path.exists(raw):
+        raise ToolError("the instrumented test suite recorded nothing:\n" + out[-2000:])
+    rc2, summary = sh(["python3", os.path.join(ROOT, "gen", "proto.py"), raw, cases], check=True)
+    info = json.loads(summary.strip().splitlines()[-1])
+    m = re.findall(r"test result: \w+\. (\d+) passed; (\d+) failed", out)
+    info.update({"tests_passed": sum(int(a) for a, b in m), "tests_failed": sum(int(b) for a, b in m),
+                 "wall_s": round(time.time() - t0, 1)})
+    run.stages.append({"stage": "record[repository test suite]", "kind": "recording", **info})
+    return cases
+
+
+def run_harness(cases_path, trace_path, mode="run", proto=None):
     jp = trace_path + ".journal"
-    rc, out = sh([BIN, mode, cases_path, trace_path], timeout=1800, env={"VERIF_JOURNAL": jp})
+    env = {"VERIF_JOURNAL": jp}
+    if proto:
+        if os.path.exists(proto):
+            os.remove(proto)
+        env["CRUX_VERIF_TRACE"] = proto
+    rc, out = sh([BIN, mode, cases_path, trace_path], timeout=1800, env=env)
     if rc != 0:
         j = None
         if os.path.exists(jp):
